@@ -1080,6 +1080,9 @@ def _lockstep_op(run, ms, op, run_out=None):
         if got != want and exp.get("known_any"):
             problems.append(("known:" + exp["known_any"], KNOWN_QUIRKS[exp["known_any"]], diff_rows(got, want)))
             return None, None, problems
+        if got != want and _f5_match(w, got, want):
+            problems.append(("known:f5", KNOWN_QUIRKS["f5"], diff_rows(got, want)))
+            return None, None, problems
         if got != want:
             if exp["open"]:
                 return None, None, problems
@@ -1155,7 +1158,28 @@ def _lockstep_op(run, ms, op, run_out=None):
     return post, (run.canon(), post.canon()), problems
 
 
+def _f5_match(w, got, want):
+    """one-to-one worlds: the only difference is a child row that still points at a parent although the model says
+    it was displaced (its many-to-one attribute was never cleared)"""
+    links = [l for l in w.spec.links if l.o2m and not l.uselist]
+    if not links:
+        return False
+    cols = {t: cs for t, cs, q in w.readers}
+    for t in set(got) | set(want):
+        if got.get(t) == want.get(t):
+            continue
+        ls = [l for l in links if l.table == t]
+        if not ls or len(got[t]) != len(want[t]):
+            return False
+        i = cols[t].index(ls[0].fk)
+        for a, b in zip(got[t], want[t]):
+            if a != b and not (a[:i] + a[i + 1:] == b[:i] + b[i + 1:] and b[i] is None and a[i] is not None):
+                return False
+    return True
+
+
 KNOWN_QUIRKS = {
+    "f5": "one-to-one (uselist=False): when a child takes over a parent through child.parent = p, the displaced child's own many-to-one attribute is not cleared; if the parent's scalar has no net change in that flush the displaced row keeps its foreign key (two rows for one parent)",
     "f6": "delete-orphan: an orphan found only by the session-level check is deleted without its delete cascade (children keep referring to it)",
     "f7": "joined inheritance: a pending object that takes over the primary key of a deleted object of another subclass (row switch) is written as an UPDATE of the old row",
     "f8": "passive_updates=True: after a parent key change a loaded child whose parent collection is not loaded keeps the old foreign key value in memory",
